@@ -212,6 +212,9 @@ func buildIntrinsics() map[string]intrinsic {
 		v := m.nondet(m.goString(a[0], "NondetByteRange"), 8)
 		lo, hi := a[1].(*sym.Term), a[2].(*sym.Term)
 		m.assume(m.ctx.And(m.ctx.Ule(lo, v), m.ctx.Ule(v, hi)))
+		if lo.IsConst() && hi.IsConst() && lo.Val <= hi.Val {
+			m.noteRange(v, lo.Val, hi.Val)
+		}
 		return v
 	}
 	t[apiPkg+".NondetIntRange"] = func(m *Machine, fr *frame, a []Value) Value {
